@@ -20,6 +20,42 @@ CHECKS = {
          "bounded-exhaustive enumeration of filter chains x strategies x target lists x players x host names, adapters built through the application's from_config (and YAML), against an independent evaluator",
          "Full product over every single filter shape (1035), every ordered pair from a reduced menu, all strategy configurations and target lists up to 3 with every count spelling; the oracle is written from the statement and accepts either reading where the statement is silent.",
          "regex crate trusted for the three fixed patterns; readings of absent/non-numeric counts and of an allow filter with no list are both accepted.", "DESIGN.md §4 C18"),
+ "C01": ("vsim", "model_checking",
+         "explicit-state exploration over client scripts: the full product of handshake intent x encryption response x authentication verdict x routing, each run on the real Connection over a virtual transport, compared with a reference admission model",
+         "Every element of the product (1 470 quick / 4 410 thorough connections, plus a prior connection supplying a stale token) is executed against the real Connection::listen with scripted adapters whose arguments are logged; the reference model says who may be admitted and under which identity, and the wire is decoded with an independent codec and CFB8.",
+         "rsa/aes/hmac crates trusted as primitives; the client byte streams are scripts over the stated alphabet (byte noise is C04).", "DESIGN.md §4 C01"),
+ "C02": ("vsim", "model_checking",
+         "exhaustive enumeration of cookie variants (every truncation, every single-bit flip, secrets, addresses, ages around every expiry, non-cookie bodies) on the real Connection, against a reference acceptance predicate with an independent HMAC-SHA-256",
+         "About 2 500 connections: each cookie variant forged with the harness's own HMAC, each judged by the Encryption Request flag, the authentication call log and the identity in Login Success. Boundary ages use a clock protocol (repeat if the wall-clock second ticked).",
+         "wall clock for cookie ages (cases repeated on a tick); multi-bit forgeries left to the HMAC construction.", "DESIGN.md §4 C02"),
+ "C03": ("vsim", "model_checking",
+         "full product discovery x filter x strategy outcomes x latencies and client locale x localisation table on the real Connection; argument-flow equalities from adapter call logs and an independent fallback-chain implementation",
+         "Every combination of discovery list (IPv4/IPv6, duplicates, empty, error), filter outcome, strategy outcome and adapter latency, plus 19 locales x 9 tables on both no-target paths; Transfer host compared as an address, Disconnect text compared with an independent implementation of the region -> language -> default chain.",
+         "locale keys compared as exact strings; when no table exists in the whole chain only 'one Disconnect, no Transfer' is judged.", "DESIGN.md §4 C03"),
+ "C04": ("vsim", "fault_enumeration",
+         "fault enumeration: one hostile frame from a structured alphabet injected in each of ten protocol states of the real Connection (before and after encryption), with panic capture, a counting global allocator and virtual-time termination checks",
+         "About 25 000 (quick) / 100 000 (thorough) runs: outer and inner length prefixes (negative, zero, off-by-one, 2^31-1, over-long), truncation at every offset, invalid UTF-8, enum ordinals, RSA shapes and wrong-size secrets, every tiny frame; oracles: no panic, returns at the instant of EOF, largest single allocation <= 2*max+64 KiB, out-of-range length refused at once, malformed input ends in an error with nothing granted.",
+         "deviation bound 1 (one hostile frame per run); allocation measured per thread while the handler runs.", "DESIGN.md §4 C04"),
+ "C05": ("vsim", "model_checking",
+         "stateless depth-first exploration of every transport answer (accept any prefix, deliver any prefix, Pending) to the real CipherStream; complete for short messages, deviation-bounded (2/3) for long ones; oracle = independent AES-128-CFB8",
+         "Every poll_read / poll_write answer is a choice point owned by the explorer; all answer sequences for messages up to 7 bytes and all sequences with at most 2 (quick) / 3 (thorough) deviations for messages up to 200 bytes are executed, with the encryption switch before, between or after messages; replays are checked for determinism.",
+         "raw AES block function shared with the implementation; transport errors not in the alphabet.", "DESIGN.md §4 C05"),
+ "C06": ("vsim", "model_checking",
+         "explicit-state breadth-first search over histories of serverbound packet kinds (a state is the history, replayed on a fresh real Connection), against a reference protocol automaton",
+         "Breadth-first over 26 packet kinds (every id of every phase, six next-state values, three ping payloads), expanding exactly the histories after which the implementation still waits, to depth 9 / 11, for 7 / 12 configurations; the automaton predicts the exact reply sequence in handshake, status and login phases and the reply set/order and routing constraints in the configuration phase.",
+         "frames that match the expected id but carry trailing bytes may be read either way; tolerated configuration-phase packets are not fixed by the statement.", "DESIGN.md §4 C06"),
+ "C07": ("vsim", "model_checking",
+         "exhaustive enumeration of a timing alphabet (adapter latencies, Client Information delay, echo policy, login duration) under tokio's paused clock on the real Connection; oracle read off the timestamped wire log and the client's echo log",
+         "2 000 (quick) / 90 000 (thorough) connections under virtual time; bounds of the statement: a Keep Alive at least every 16 s, never a second one while unechoed, no drop of a client whose echo preceded the Disconnect, a silent or wrong-id client gone within 16 s, Transfer exactly when routing completes, timeout text in the client's locale.",
+         "real-valued time represented by +-1 ms neighbours of the period; events exactly on a tick are not judged.", "DESIGN.md §4 C07"),
+ "C08": ("vsim", "model_checking",
+         "deviation-bounded differential exploration of transport schedules on the real Connection: a segment boundary before every byte of the client's stream x pause classes aligned to the baseline's timer events, partial/delayed acceptance of every clientbound frame, one-byte segmentation, all 64 patterns of unbiased select draws; every run compared with the unsegmented baseline",
+         "Bound 1 complete for all classes in 8 scenarios (about 40 000 schedules); bound 2 for the stated pairs (thorough, about 2 million). The observable trace (clientbound packets other than keep-alives, service calls with arguments, outcome) must equal the baseline's, frames must arrive whole, and bytes that arrived before the end must have been consumed.",
+         "pauses are classes relative to the baseline timeline; runs in which the pause makes the client itself miss a keep-alive deadline are counted and not judged; tokio built with --cfg tokio_unstable for seeded select draws.", "DESIGN.md §4 C08"),
+ "C10": ("vsim", "model_checking",
+         "enumeration of two-connection histories on the real Connection (authenticate and get transferred, then reconnect with what was stored); issued cookies opened with an independent HMAC-SHA-256 and JSON reader",
+         "435 (quick) / 20 000 (thorough) histories over client address family, secret length class, prior session cookie, kind of second connection, identity, properties, target identifier and handshake host/port; the first connection is run twice to show the session id is fresh; three histories use real time to cross the expiry.",
+         "refresh of the cookie on the cookie-authenticated path is not judged; timestamps checked against the wall-clock bracket of the run.", "DESIGN.md §4 C10"),
 }
 
 ALL = ["C%02d" % i for i in range(1, 21)]
